@@ -21,6 +21,8 @@ from ..spec import strip_meta
 
 PID = "C03"
 LEVEL = "exploration"
+# a few fixed documents are encoded before and after every shard's workload (harness.Sentinels)
+SENTINELS = True
 RULE = ("single-section tables with 0..60 rows whose cells are sized to need 1..6 lines at their own font (1..10) and "
         "size (6..24, scalar / per-column / matrix), nrow 1..50, column headers explicit / default / two-row / none, "
         "footnote and source absent / table / paragraph at any placement, strategies plain / page_by (1-3 levels, "
